@@ -298,7 +298,10 @@ func judgeC13(c c13Case) (string, string) {
 	if c.Opts.AllowX {
 		ci.XAttrErrorHandler = func(string, string, string, error) error { return nil }
 	}
-	if err := fscopy.Copy(context.Background(), srcDir, c.Src, dstDir, c.Dst, fscopy.WithCopyInfo(ci)); err != nil {
+	if err := boundedCopy(func() error { return fscopy.Copy(context.Background(), srcDir, c.Src, dstDir, c.Dst, fscopy.WithCopyInfo(ci)) }); err != nil {
+		if err == errCopyHangs {
+			return "copy-hangs", err.Error()
+		}
 		return "copy-failed", err.Error()
 	}
 	got, err := fsmodel.Snapshot(dstDir)
